@@ -1,0 +1,22 @@
+//go:build verif
+
+package upstream
+
+import (
+	"net/http"
+
+	"github.com/andydunstall/yamux"
+)
+
+// This file only exists under the 'verif' build tag. It exposes the upstream
+// server internals to an external verification harness.
+
+func (s *Server) VerifOpenSessions() int { return s.openSessions() }
+
+func (s *Server) VerifAddSession(sess *yamux.Session) { s.addSession(sess) }
+
+func (s *Server) VerifRemoveSession(sess *yamux.Session) { s.removeSession(sess) }
+
+func (s *Server) VerifHandler() http.Handler { return s.httpServer.Handler }
+
+func (s *Server) VerifManager() Manager { return s.upstreams }
